@@ -324,6 +324,7 @@
     #[verifier::prophetic]
     pub open spec fn outcome<'a, 'src>(pre: ExpressionParser<'a, 'src>, post: ExpressionParser<'a, 'src>, res: Result<Expr, ()>, sp: PRes) -> bool {
         &&& post.walker.src() == pre.walker.src()
+        &&& post.walker.inv()
         &&& mut_ref_future(post.walker) == mut_ref_future(pre.walker)
         &&& mut_ref_future(post.report) == mut_ref_future(pre.report)
         &&& post.report.msgs() >= pre.report.msgs()
